@@ -123,6 +123,19 @@ class Arr:
     def copy(self):
         return Arr(self.shape, self.fn, self.dtype, self.kind, self.mask, self.chunks)
 
+    def assign_from(self, other):
+        """numpy in-place update: this very object (and so every alias of it) now holds other's values"""
+        self.fn = other.fn
+        self.shape = other.shape
+        self.mask = other.mask
+        if other.dtype == "real" and self.dtype == "int":
+            # storing reals into an integer array truncates them
+            f0 = other.fn
+            self.fn = _memo(lambda *idx: T.app("trunc", P(f0(*idx))))
+        else:
+            self.dtype = other.dtype if self.dtype != "int" else self.dtype
+        return self
+
     def view(self):
         return Arr(self.shape, self.fn, self.dtype, self.kind, self.mask, self.chunks, self.origin)
 
@@ -368,12 +381,14 @@ def ewise(f, *ops, dtype=None):
     if dtype is None:
         dtype = "bool" if all(isinstance(o, Arr) and o.dtype == "bool" for o in ops) else \
             ("int" if all((isinstance(o, Arr) and o.dtype == "int") or isinstance(o, int) for o in ops) else "real")
-    opsl = list(ops)
+    # snapshot the operands' element functions NOW: a later in-place update of an operand
+    # must not change this (fresh) result
+    opsl = [(o.fn if isinstance(o, Arr) else o) for o in ops]
 
     def fn(*idx):
         vals = []
         for o, mp in zip(opsl, mappers):
-            vals.append(o.fn(*mp(idx)) if mp is not None else o)
+            vals.append(o(*mp(idx)) if mp is not None else o)
         return f(*vals)
     return Arr(shape, fn, dtype, kind, mask)
 
@@ -394,7 +409,7 @@ def reduce_arr(a, how, axis, keepdims):
     axes = norm_axis(axis, a.ndim)
     if how in ("argmin", "argmax") and len(axes) != 1:
         raise ModelError("argmin over several axes")
-    src = a
+    src = a.view()          # snapshot (see ewise)
     shape = []
     for k, d in enumerate(a.shape):
         if k in axes:
@@ -563,11 +578,11 @@ def getitem(a, key):
 def setitem(a, key, val):
     """returns a new Arr equal to a except at the addressed positions"""
     if isinstance(key, Arr) and key.dtype == "bool" and key.ndim == a.ndim:
-        kk = key
+        kfn, afn0 = key.fn, a.fn       # snapshots: `a` is updated in place with this result
         if isinstance(val, Arr):
             raise ModelError("masked store of an array")
         v = P(val)
-        return Arr(a.shape, lambda *idx: T.mk_ite(C(kk.fn(*idx)), v, a.fn(*idx)), a.dtype, a.kind, a.mask, origin=a.origin)
+        return Arr(a.shape, lambda *idx: T.mk_ite(C(kfn(*idx)), v, afn0(*idx)), a.dtype, a.kind, a.mask, origin=a.origin)
     if not isinstance(key, tuple):
         key = (key,)
     if any(k is Ellipsis or k is None for k in key):
@@ -594,7 +609,8 @@ def setitem(a, key, val):
         # broadcast val to sub_shape
         bshape([val.shape, sub_shape])
         vm = _bidx(val, len(sub_shape))
-        vfn = lambda sub: val.fn(*vm(sub))
+        valfn = val.fn
+        vfn = lambda sub: valfn(*vm(sub))
     elif is_scalar(val):
         vfn = lambda sub: P(val)
     elif hasattr(val, "store_rows"):
@@ -603,6 +619,9 @@ def setitem(a, key, val):
     else:
         raise ModelError("store of %s" % type(val).__name__)
 
+    afn = a.fn
+    trunc = a.dtype == "int" and not (isinstance(val, Arr) and val.dtype in ("int", "bool")) and not isinstance(val, int)
+
     def fn(*idx):
         cond = T.TRUE
         for ax, kv in fixed:
@@ -610,8 +629,10 @@ def setitem(a, key, val):
         for ax, mk in masks:
             cond = T.c_and(cond, C(mk.fn(idx[ax])))
         sub = [idx[ax] for ax in kept]
-        old = a.fn(*idx)
+        old = afn(*idx)
         new = vfn(sub)
+        if trunc:
+            new = T.app("trunc", P(new))     # a real stored into an integer array is truncated
         # old + [cond](new-old): additive form so that the loop rules see deltas
         return old + T.mk_ind(cond) * (new - old)
     return Arr(a.shape, fn, a.dtype, a.kind, a.mask, origin=a.origin)
@@ -625,8 +646,8 @@ def matmul(a, b):
         raise ShapeError("matmul: scalar operand")
     a1 = a.ndim == 1
     b1 = b.ndim == 1
-    A = a if not a1 else getitem(a, (None, slice(None)))
-    B = b if not b1 else getitem(b, (slice(None), None))
+    A = a.view() if not a1 else getitem(a, (None, slice(None)))
+    B = b.view() if not b1 else getitem(b, (slice(None), None))
     ka, kb = A.shape[-1], B.shape[-2]
     if not dim_eq(ka, kb):
         raise ShapeError("matmul: mismatch in core dimension %r vs %r" % (ka, kb))
